@@ -154,6 +154,12 @@ func condFalse(u *unstructured.Unstructured, t string) bool {
 }
 
 // setOwner puts the target object into the pre-state.
+// namesake selects the flavour of the foreign controller of the preForeign
+// pre-state: false = an unrelated object; true = an object with the kind and
+// name of the legitimate owner but another UID (an earlier incarnation of the
+// owner, deleted and re-created since).
+var namesake bool
+
 func setPre(o metav1.Object, pre int, owner metav1.OwnerReference) bool {
 	switch pre {
 	case preAbsent:
@@ -162,7 +168,13 @@ func setPre(o metav1.Object, pre int, owner metav1.OwnerReference) bool {
 		owner.Controller = ptr.To(true)
 		o.SetOwnerReferences([]metav1.OwnerReference{owner})
 	case preForeign:
-		o.SetOwnerReferences([]metav1.OwnerReference{foreign})
+		f := foreign
+		if namesake {
+			f = owner
+			f.UID += "-earlier-incarnation"
+			f.Controller = ptr.To(true)
+		}
+		o.SetOwnerReferences([]metav1.OwnerReference{f})
 	}
 	return true
 }
@@ -488,6 +500,7 @@ func body(r *explore.Run, rep *report.R, st site) {
 	}
 	pre := r.Free(npre, "pre-state")
 	rounds := 1 + r.Free(3, "rounds")
+	namesake = pre == preForeign && r.Bool("foreign-controller-is-a-namesake-of-the-owner")
 	xrh.BeginExecution(1)
 	w := &world{s: xrh.NewStore(), xrd: xrh.XRD()}
 	w.s.Seed(w.xrd.DeepCopy())
@@ -604,7 +617,7 @@ func body(r *explore.Run, rep *report.R, st site) {
 	if !adopted && strings.Contains(st.name, "garbage-collection") && (pre == preOwned || pre == preUncontrolled) && after != nil && after.GetDeletionTimestamp() == nil {
 		r.Failf("harness/site-not-exercised/"+st.name, "the %s site did not garbage collect its own / an uncontrolled object (errs %v)", st.name, errs)
 	}
-	rep.Eval(st.name, report.Hash(st.name, pre, after != nil, len(errs) > 0, len(w.warnings) > 0), report.Hash(st.name, pre, rounds, adoptAt))
+	rep.Eval(st.name, report.Hash(st.name, pre, after != nil, len(errs) > 0, len(w.warnings) > 0), report.Hash(st.name, pre, rounds, adoptAt, namesake))
 	if rep.WantSample() && (pre == preForeign || pre >= preStaleOwned) {
 		rep.Sample(map[string]any{"site": st.name, "pre_state": preNames[pre], "rounds": rounds, "errors": errs, "warnings": w.warnings, "writes_on_target": writes})
 	}
@@ -620,7 +633,7 @@ func canonical(u *unstructured.Unstructured) string {
 func TestCheck(t *testing.T) {
 	rep := report.New("C02", "exploration")
 	rep.Meta(
-		"Table: 18 write sites (function composer: referenced object / desired-name collision / garbage collection; P&T composer: referenced object / name fixed by the template / removed template; XR connection secret; claim connection secret with both syncers; XRD->composite CRD and claim CRD; package->revision; active revision establishing an object; RBAC provider system and edit roles, binding; XRD roles) x target pre-state {absent, uncontrolled, controlled by the owner, controlled by a foreign UID; for the composer sites also: adopted by a foreign UID while the controller's cache still serves the version it owned / that was uncontrolled} x 1..3 reconcile rounds, each run on the real reconciler over simkube. Foreign: target byte-identical, no effective non-dry-run write in the write log, conflict surfaced (returned error, warning event or unsynced condition). Absent / owned rows are controls showing the site does write. Non-trivial: every row (distinct by site, pre-state, rounds).",
+		"Table: 18 write sites (function composer: referenced object / desired-name collision / garbage collection; P&T composer: referenced object / name fixed by the template / removed template; XR connection secret; claim connection secret with both syncers; XRD->composite CRD and claim CRD; package->revision; active revision establishing an object; RBAC provider system and edit roles, binding; XRD roles) x target pre-state {absent, uncontrolled, controlled by the owner, controlled by a foreign UID (an unrelated object, or a namesake of the owner with another UID); for the composer sites also: adopted by a foreign UID while the controller's cache still serves the version it owned / that was uncontrolled} x 1..3 reconcile rounds, each run on the real reconciler over simkube. Foreign: target byte-identical, no effective non-dry-run write in the write log, conflict surfaced (returned error, warning event or unsynced condition). Absent / owned rows are controls showing the site does write. Non-trivial: every row (distinct by site, pre-state, rounds).",
 		[]string{"simkube models the API server and enforces 'at most one controller reference' with the real ValidateOwnerReferences (the server-side-apply composer relies on that refusal)", "claim->XR binding (a claim reference, not a controller reference) is covered by C06; establishing into objects of other package revisions by C16"},
 		[]string{"simkube", "structured-merge-diff (real)"},
 	)
